@@ -175,7 +175,7 @@ Proof.
     + inversion H; subst; sproj; emit_simpl; reflexivity.
   - destruct (buf_send c st (IDelete k c0)) as [st1|] eqn:E.
     + inversion H; subst; sproj. apply buf_send_frame in E. tauto.
-    + destruct (c_async c); [destruct (s_pc st); try discriminate|]; inversion H; subst; sproj; reflexivity.
+    + destruct (s_pc st); try discriminate; inversion H; subst; sproj; reflexivity.
   - destruct (s_closed st); inversion H; subst; sproj; reflexivity.
   - destruct (mem_N id (s_done st)); [|discriminate]. inversion H; subst; sproj; reflexivity.
   - destruct (mem_N id (s_done st)); [|discriminate]. destruct closing; inversion H; subst; sproj; reflexivity.
